@@ -1525,6 +1525,20 @@ class BaseInterpreter(Generic[TContext, TEvent]):
             )
         registry[system_id] = actor
 
+    def _unregister_from_system(self) -> None:
+        """Removes this actor's own `systemId` registrations.
+
+        Called from `stop()`. `stopChild` already unregistered its direct
+        target, but an actor stopped any other way - by its parent's `stop()`,
+        as a descendant of a stopped child, or because its id was reused -
+        stayed addressable by `systemId` after it had stopped and silently
+        swallowed every event sent to it.
+        """
+        registry = self._system_registry()
+        for system_id, actor in list(registry.items()):
+            if actor is self:
+                del registry[system_id]
+
     def _resolve_delay(self, spec: Any, event: Any) -> Optional[float]:
         """Resolves a delay specification to milliseconds.
 
